@@ -656,8 +656,9 @@ def run(chk: Check):
     live = irtools.reachable(irtools.ref_graph(ir.rules), ["file", "eval"])
     rule_x4b(chk, ir, chk.units.get("confined_rules", []), live)
     rule_x5(chk, ir)
-    from .x11 import rule_x11
+    from .x11 import rule_x11, rule_x12
     rule_x11(chk)
+    rule_x12(chk)
     rule_x6(chk, ir)
     rule_x7(chk)
     rule_x8(chk, ir, ix)
